@@ -4,7 +4,18 @@ use crate::util::*;
 use serde::Deserialize;
 use serde_json::{json, Value};
 
+/// floats arrive as decimal STRINGS and are parsed with std (correctly rounded): serde_json's default number
+/// parser may be 1 ulp off on 17-digit input, which matters at the rounding thresholds this module aims at
 #[derive(Deserialize)]
+struct QRaw {
+    method: usize,
+    lat: String,
+    lon: String,
+    elev: String,
+    gmt: String,
+    start: String,
+    end: String,
+}
 struct Q {
     method: usize,
     lat: f64,
@@ -14,9 +25,15 @@ struct Q {
     start: String,
     end: String,
 }
+fn read_queries(inp: &str) -> Vec<Q> {
+    let raw: Vec<QRaw> = serde_json::from_str(&std::fs::read_to_string(inp).expect("read")).expect("parse");
+    raw.into_iter()
+        .map(|r| Q { method: r.method, lat: r.lat.parse().unwrap(), lon: r.lon.parse().unwrap(), elev: r.elev.parse().unwrap(), gmt: r.gmt.parse().unwrap(), start: r.start, end: r.end })
+        .collect()
+}
 
 pub fn expect(inp: &str, out: &str) -> i32 {
-    let qs: Vec<Q> = serde_json::from_str(&std::fs::read_to_string(inp).expect("read")).expect("parse");
+    let qs = read_queries(inp);
     let mut res: Vec<Value> = vec![];
     for q in qs {
         let p = Params::new(METHODS[q.method]);
@@ -40,6 +57,43 @@ pub fn expect(inp: &str, out: &str) -> i32 {
         res.push(match r {
             Ok(v) => v,
             Err(pm) => json!({"panic": pm}),
+        });
+    }
+    std::fs::write(out, serde_json::to_string(&res).unwrap()).expect("write");
+    0
+}
+
+/// For each query: bisect the longitude down to adjacent f64 values so that the unrounded Dhuhr crosses hh:mm:30
+/// (the rounding threshold of the CLI's default mode). The orchestrator runs its save/load round trips exactly
+/// there: a parameter file that does not hold the run's coordinates bit-for-bit flips the rounded minute.
+pub fn seek_rounding(inp: &str, out: &str) -> i32 {
+    use chrono::Timelike;
+    let qs = read_queries(inp);
+    let mut res: Vec<Value> = vec![];
+    for q in qs {
+        let mut p = Params::new(METHODS[q.method]);
+        p.round_seconds = RoundSeconds::None;
+        let date = s2d(&q.start);
+        let dh = |lon: f64| -> Option<f64> {
+            super::guarded(|| prayer_times_dt(&p, loc(q.lat, lon, q.elev, q.gmt), date, None)).ok().and_then(|r| r[&Prayer::Dhuhr].ok()).map(|t| t.time.num_seconds_from_midnight() as f64)
+        };
+        let found = (|| {
+            let d0 = dh(q.lon)?;
+            // Dhuhr falls 240 s per degree eastwards: aim at the next hh:mm:30 below the current value
+            let target = ((d0 - 30.0) / 60.0).floor() * 60.0 + 30.0;
+            let lon1 = q.lon + (d0 - target) / 240.0 + 0.01;
+            if lon1 > 180.0 || target <= 60.0 {
+                return None;
+            }
+            if dh(lon1)? >= target {
+                return None;
+            }
+            let (a, b) = super::bisect(q.lon, lon1, |lon| dh(lon).map(|d| d >= target).unwrap_or(true));
+            Some((a, b))
+        })();
+        res.push(match found {
+            Some((a, b)) => json!({"lon_a": format!("{a:?}"), "lon_b": format!("{b:?}")}),
+            None => json!(null),
         });
     }
     std::fs::write(out, serde_json::to_string(&res).unwrap()).expect("write");
